@@ -90,17 +90,18 @@ _NOVALUE = object()
 CURRENT = {"controller": None, "observe": None, "rec": None}
 
 
-async def _park(kind):
+async def _park(kind, default=None):
     """Suspension point of a stub: parks on a future the replay controller completes per script."""
     ctl = CURRENT["controller"]
     if ctl is None:
-        return _NOVALUE
+        return _NOVALUE if default is None else default()
     ctl.loop._pyvc_internal = True
     try:
         fut = ctl.loop.create_future()
     finally:
         ctl.loop._pyvc_internal = False
     fut._pyvc_kind = kind
+    fut._pyvc_default = default
     v = await fut
     return _NOVALUE if v is True else v
 
@@ -327,7 +328,7 @@ class wrap_callees:
             name = con.effect_name or qn
             rec = self.rec
 
-            def make(raw, name, qn=qn):
+            def make(raw, name, qn=qn, con=con):
                 if asyncio.iscoroutinefunction(raw):
                     async def w(self_, *a, **k):
                         # modular replay: the callee behaves as the model chose within its contract
@@ -341,7 +342,10 @@ class wrap_callees:
                                 rec.depth -= 1
                         else:
                             try:
-                                r = await _park(qn)
+                                dflt = None
+                                if getattr(con, "native_default", None) is not None:
+                                    dflt = (lambda s_=self_, a_=a, k_=k, c_=con: c_.native_default(s_, a_, k_))
+                                r = await _park(qn, dflt)
                             except BaseException:
                                 rec.add(("raise@" + qn, None))
                                 raise
@@ -420,6 +424,16 @@ def judge(con: Contract, bindings, old_bindings, result, raised, fx, only=None):
     for cid, lam, on in con.ensures_:
         if on == "any" or on == exit_kind:
             ev(cid, lam)
+    for (lk, cid), lam in getattr(con, "native_witness", {}).items():
+        full = f"{qn}::loop{lk}.at_entry.{cid}"
+        if only is not None and full not in only:
+            continue
+        try:
+            code = lam.__code__
+            names = code.co_varnames[: code.co_argcount]
+            out.append((full, bool(lam(*[b[n] for n in names])), "judged on the effects of the whole native run"))
+        except Exception as e:
+            out.append((full, None, f"witness predicate failed: {e!r}"))
     if con.self_spec is not None and con.check_inv and "self" in bindings:
         for iid, lam in con.self_spec.invariants:
             ev(f"inv.{iid}", lam)
